@@ -41,19 +41,50 @@ def generate(tier, rng):
                 drvs = [[rng.randint(1, 9) for _ in range(n)], [rng.randint(1, 9) for _ in range(n)], [rng.randint(1, 9) for _ in range(n)]]
                 cases.append(dict(stream="history", gname=gname, grid=grid, cls=cls, solver=solver, seq="".join(s), prms=prms, drvs=drvs,
                                   at=["start", "middle", "end"][k % 3], n_pts=1 + (k % 2), in_system=(k % 5 == 0)))
+    # two-parameter library models: set_prms changing only the first, only the second, or both parameters
+    # (values are not exactly representable: judged by the oracle against a fresh stock, bit for bit)
+    two = [[8, 3], [12, 3], [12, 5], [8, 5]]
+    for kind in ("normal", "lognormal", "foldnorm", "weibull"):
+        for cls, solver in (("idsm", None), ("sdsm", "manual")):
+            for s in [q for q in seqs if q.count("P") >= 1 and len(q) <= 4][:: (3 if tier == "quick" else 1)]:
+                k += 1
+                grid = c03.GRIDS["unit"]
+                n = len(grid)
+                start = k % 4
+                cases.append(dict(stream="tolerance", coq=False, gname="unit", grid=grid, cls=cls, solver=solver, seq="".join(s), kind=kind,
+                                  prms=[two[(start + j) % 4] for j in range(3)], drvs=[[rng.randint(1, 9) for _ in range(n)] for _ in range(3)],
+                                  at="middle", n_pts=1, in_system=False))
     return cases
 
 
+def _lt(case, prm):
+    kind = case.get("kind", "fixed")
+    if kind == "fixed":
+        return dict(kind="fixed", mean=prm, inflow_at=case["at"], n_pts=case["n_pts"])
+    if kind == "weibull":
+        return dict(kind="weibull", shape=prm[1] / 2, scale=prm[0], inflow_at=case["at"], n_pts=case["n_pts"])
+    return dict(kind=kind, mean=prm[0], std=prm[1], inflow_at=case["at"], n_pts=case["n_pts"])
+
+
+def _set_prms(case, st, dims, prm):
+    kind = case.get("kind", "fixed")
+    if kind == "fixed":
+        st.lifetime_model.set_prms(mean=sd.mk_param(dims, prm))
+    elif kind == "weibull":
+        st.lifetime_model.set_prms(weibull_shape=prm[1] / 2, weibull_scale=prm[0])
+    else:
+        st.lifetime_model.set_prms(mean=prm[0], std=prm[1])
+
+
 def _stock_case(case, prm, drv):
-    c = dict(cls=case["cls"], grid=case["grid"], extra=[], driver=drv,
-             lifetime=dict(kind="fixed", mean=prm, inflow_at=case["at"], n_pts=case["n_pts"]))
+    c = dict(cls=case["cls"], grid=case["grid"], extra=[], driver=drv, lifetime=_lt(case, prm))
     if case["solver"]:
         c["solver"] = case["solver"]
     return c
 
 
 def _obs3(st):
-    return dict(stock=observe_values(st.stock.values, True), inflow=observe_values(st.inflow.values, True),
+    return dict(stock=observe_values(st.stock.values, True) if True else None, inflow=observe_values(st.inflow.values, True),
                 outflow=observe_values(st.outflow.values, True))
 
 
@@ -105,7 +136,7 @@ def run_impl(case):
             elif ch == "P":
                 prm_i += 1
                 prm = case["prms"][prm_i % 3]
-                st.lifetime_model.set_prms(mean=sd.mk_param(dims, prm))
+                _set_prms(case, st, dims, prm)
                 steps.append(dict(op="P", prm=prm))
             elif ch == "R":
                 steps.append(dict(op="R", sf=observe_values(st.lifetime_model.sf, True)))
